@@ -972,6 +972,9 @@ SHAPE_CASES = [
     (('S', 'K', 'N'), ('S', 'K', '1'), ('S', 'K'), 'x and parameters batched twice together'),
     (('N',), ('S', 'N'), ('S',), 'likelihood term: data x, batched parameters'),
     (('N',), ('S', 'K', 'N'), ('S', 'K'), 'likelihood term: data x, parameters batched twice'),
+    # a block with two event dimensions (a matrix of rates): the parameters' batch shape has both
+    (('S', 'M', 'N'), ('M', 'N'), ('S',), 'batched matrix-valued x, unbatched element-wise parameters'),
+    (('S', 'K', 'M', 'N'), ('M', 'N'), ('S', 'K'), 'matrix-valued x batched twice, unbatched element-wise parameters'),
 ]
 
 
